@@ -14,9 +14,16 @@ and the entry points then answer `Outcome.outOfFuel`.  This file states, at the 
 * `run_outOfFuel_iff`: the outcome is `outOfFuel` exactly when the underlying run ended with `oof`;
 * `run_outOfFuel_downward`: if fuel `m` is not enough, no smaller fuel is.
 
+* `fuelBound`, `fuel_adequate`, `fuel_adequate_ge`: a computable bound – `need D a.root + 2` with `D` the
+  nesting depth of the document and the variable values – with which no entry point answers `outOfFuel`
+  (unconditionally: every path, document, option set); `run_eq_bound_of_ge`, `run_eq_bound_of_finished`:
+  so every run that finishes, and every run with at least `fuelBound`, gives the answer of the run with
+  `fuelBound`.
+
 They rest on `Exec.Fuel.sim_all` (Lemmas/Fuel.lean): the three dispatchers `xItem`, `xBool`, `xAny`
 are monotone in the fuel, proved function by function over the whole executor, which in turn rests on
-`oof` being sticky and never dropped or restored anywhere in the model.
+`oof` being sticky and never dropped or restored anywhere in the model; adequacy rests on
+`Exec.Fuel.adequate_all` (same file, part 2).
 
 The `example`s at the end are the non-vacuity checks: concrete runs where fuel 3 is exhausted and
 fuel 50 and 500 agree on a proper answer.
@@ -127,6 +134,54 @@ theorem run_outOfFuel_iff (e : Entry) (n : Nat) (a : AST) (doc : Item) (o : Opts
     · exact guarded_outOfFuel_iff (by (repeat' split) <;> simp)
     · exact guarded_outOfFuel_iff (by (repeat' split) <;> simp)
 
+/-! ## adequacy: a computable amount of fuel that always suffices -/
+
+/-- Enough fuel for every entry point: `need D root + 2`, where `D` bounds the nesting depth of the
+    document and of the variable values, and `need D` charges 4 per nesting level of the path tree
+    (`next` pointers and operands alike) plus `D` for every `.**` step on the way.
+    (`xItem` recurses on sub-nodes and `next` nodes; it re-enters the same node at most twice more –
+    through `xBool` for a predicate, through `xAny` and back for the auto-unwrapping of an array target –
+    and `.**` recurses through `xAny` once per level of the item.) -/
+def fuelBound (a : AST) (doc : Item) (o : Opts) : Nat := need (docDepth doc o) a.root + 2
+
+theorem runRes_adequate (e : Entry) (n : Nat) (a : AST) (doc : Item) (o : Opts) (hn : fuelBound a doc o ≤ n) :
+    (runRes e n a doc o).st.oof = false := by
+  have hq : ∀ f : Found, (query (mkCtx a doc o) n (initSt a doc o) a.root doc f).st.oof = false := fun f =>
+    (query_adequate (mkCtx a doc o) (mkCtx_ok a doc o) n f hn
+      (by simp only [docDepth]; omega) (initSt_ok a doc o)).1
+  unfold runRes
+  cases e <;> simp only
+  · exact hq _
+  · exact hq _
+  · exact hq _
+  · exact hq _
+  · split
+    · exact hq _
+    · exact hq _
+
+/-- **fuel adequacy**: with `fuelBound` (or more) fuel no entry point answers `outOfFuel` – for every
+    path, document, variables, mode, cancellation budget and regex oracle -/
+theorem fuel_adequate_ge (e : Entry) (n : Nat) (a : AST) (doc : Item) (o : Opts) (hn : fuelBound a doc o ≤ n) :
+    run e n a doc o ≠ .outOfFuel := by
+  intro h
+  have := (run_outOfFuel_iff e n a doc o).mp h
+  rw [runRes_adequate e n a doc o hn] at this
+  cases this
+
+theorem fuel_adequate (e : Entry) (a : AST) (doc : Item) (o : Opts) :
+    run e (fuelBound a doc o) a doc o ≠ .outOfFuel :=
+  fuel_adequate_ge e _ a doc o (Nat.le_refl _)
+
+/-- hence the model has one answer: the run with `fuelBound`, reproduced by every larger fuel and by
+    every smaller fuel that finishes -/
+theorem run_eq_bound_of_ge (e : Entry) (n : Nat) (a : AST) (doc : Item) (o : Opts) (hn : fuelBound a doc o ≤ n) :
+    run e n a doc o = run e (fuelBound a doc o) a doc o :=
+  run_fuel_independent e _ n a doc o (fuel_adequate e a doc o) hn
+
+theorem run_eq_bound_of_finished (e : Entry) (n : Nat) (a : AST) (doc : Item) (o : Opts)
+    (hn : run e n a doc o ≠ .outOfFuel) : run e n a doc o = run e (fuelBound a doc o) a doc o :=
+  run_unique e n _ a doc o hn (fuel_adequate e a doc o)
+
 /-! ## non-vacuity: concrete runs -/
 
 /-- `$.a.b.c` (lax) -/
@@ -155,6 +210,13 @@ example : run .exists 50 exPath2 exDoc2 {} = .bool true := rfl
 
 example : run .query 100000 exPath2 exDoc2 {} = .items [.int 2, .int 3, .int 4] :=
   run_fuel_independent .query 50 100000 exPath2 exDoc2 {} (by rw [show run .query 50 exPath2 exDoc2 {} = .items [.int 2, .int 3, .int 4] from rfl]; simp) (by decide)
+
+
+example : fuelBound exPath exDoc {} = 21 := by decide
+example : fuelBound exPath2 exDoc2 {} = 28 := by decide
+/-- the driver's default fuel (100000) is far above the bound for these inputs -/
+example : run .query 100000 exPath2 exDoc2 {} = run .query (fuelBound exPath2 exDoc2 {}) exPath2 exDoc2 {} :=
+  run_eq_bound_of_ge .query 100000 exPath2 exDoc2 {} (by decide)
 
 end FuelProps
 end Sqljson
